@@ -117,7 +117,7 @@ def trunc_config(rng_choice):
 def run_case(case_seed, exports, fails, stats):
     rng = random.Random(case_seed)
     np.random.seed(case_seed % (2 ** 31))
-    nsite = rng.choice([2, 3, 3, 4, 4])
+    nsite = rng.choice([2, 3, 3, 4, 4, 4, 5])
     ncomp = rng.choice([1, 1, 2])
     mseed = rng.randrange(10 ** 9)
     model, sites = G.build_model(random.Random(mseed), nsite, ncomp, False)
@@ -141,14 +141,26 @@ def run_case(case_seed, exports, fails, stats):
     stats["ncomp"][str(ncomp)] = stats["ncomp"].get(str(ncomp), 0) + 1
 
     def make_state(name):
-        if rng.random() < 0.3:
+        if rng.random() < 0.4:
+            # Hartree product state: per site an integer condition or a coefficient VECTOR spread over all / some basis
+            # states that carry the same charge as the chosen configuration (charged multi-state sites, vibrations)
             cond = {}
-            for i, (s, c) in enumerate(zip(sites, cfg)):
-                if c:
-                    cond[model.basis[i].dofs[0] if s["kind"] == "multi" else model.basis[i].dof] = int(c)
+            for i, (s_, c) in enumerate(zip(sites, cfg)):
+                key = model.basis[i].dofs[0] if s_["kind"] == "multi" else model.basis[i].dof
+                same = [j for j in range(s_["nbas"]) if s_["sigmaqn"][j] == s_["sigmaqn"][c]]
+                if len(same) >= 2 and rng.random() < 0.7:
+                    sel = sorted(rng.sample(same, rng.randint(2, len(same))))
+                    vec = [0.0] * s_["nbas"]
+                    for j in sel:
+                        vec[j] = round(rng.choice([-1, 1]) * rng.uniform(0.3, 1.0), 3)
+                    cond[key] = vec
+                    stats["vector_conditions"] = stats.get("vector_conditions", 0) + 1
+                elif c or rng.random() < 0.5:
+                    cond[key] = int(c)
             k = rng.randrange(nsite)
             mp = Mps.hartree_product_state(model, cond, qn_idx=k)
             lines.append("%s = Mps.hartree_product_state(model, %r, qn_idx=%d)" % (name, cond, k))
+            stats["product_states"] = stats.get("product_states", 0) + 1
             return mp
         mmax = rng.randint(4, 7) if ncomp == 1 else rng.randint(6, 9)
         s2 = rng.randrange(2 ** 31)
@@ -230,12 +242,61 @@ def run_case(case_seed, exports, fails, stats):
                 exports.append(e)
         return True
 
+    def partial_canonicalise(base, sector):
+        """canonicalise(stop_idx=k) for EVERY k in both sweep directions, each on its own copy of `base`; the labels /
+        qnidx of every result go to the Coq checker, and a follow-up ensure_*_canonical + lossless compress must
+        reproduce the dense vector"""
+        ref = G.dense_state(base) * base.coeff
+        for to_right in (True, False):
+            stops = range(0, nsite) if to_right else range(nsite - 1, -1, -1)
+            for k in stops:
+                nm = "p"
+                try:
+                    pc = base.copy()
+                    if to_right:
+                        pc.ensure_right_canonical()      # centre at site 0, sweeping right
+                    else:
+                        pc.ensure_left_canonical()       # centre at the last site, sweeping left
+                    pc.canonicalise(stop_idx=k)
+                    lines.append("p = x.copy(); p.ensure_%s_canonical(); p.canonicalise(stop_idx=%d)" % ("right" if to_right else "left", k))
+                    what_ = "partial_cano[%s]" % ("to_right" if to_right else "to_left")
+                    if not check(pc, nm, what_, sector):
+                        return False
+                    f2 = pc.copy()
+                    f2.compress_config = trunc_config(("fixed", 4096))
+                    follow = rng.choice(["left", "right"])
+                    getattr(f2, "ensure_%s_canonical" % follow)()
+                    f2.compress()
+                    err = float(np.linalg.norm(G.dense_state(f2) * f2.coeff - ref) / max(1.0, np.linalg.norm(ref)))
+                    stats["checks"] = stats.get("checks", 0) + 1
+                    if not err <= 1e-9:
+                        fails.append({"key": "partial_cano:dense-after-followup",
+                                      "detail": {"stop_idx": k, "to_right": to_right, "nsite": nsite, "rel_err": err, "qnidx_after": int(pc.qnidx), "to_right_after": bool(pc.to_right)},
+                                      "repro": PRELUDE + "\n".join(lines) + "\nref = G.dense_state(x) * x.coeff\nf2 = p.copy(); f2.compress_config = N.trunc_config(('fixed', 4096)); f2.ensure_%s_canonical(); f2.compress()\n"
+                                               "err = float(np.linalg.norm(G.dense_state(f2) * f2.coeff - ref) / max(1.0, np.linalg.norm(ref)))\nprint('relative error after canonicalise(stop_idx=%d) + ensure_%s_canonical + compress:', err)\nsys.exit(1 if not err <= 1e-9 else 0)\n"
+                                               % (follow, k, follow),
+                                      "case_seed": case_seed})
+                        return False
+                    lines.pop()
+                except Exception as ex:
+                    stats.setdefault("exceptions", {})
+                    kk = "partial_cano: %s" % repr(ex)[:60]
+                    stats["exceptions"][kk] = stats["exceptions"].get(kk, 0) + 1
+                    fails.append({"key": "partial_cano:exception", "detail": {"stop_idx": k, "to_right": to_right, "nsite": nsite, "exception": repr(ex), "tb": traceback.format_exc()[-500:]},
+                                  "repro": PRELUDE + "\n".join(lines) + "\n", "case_seed": case_seed})
+                    return False
+        return True
+
     nops = rng.randint(2, 5)
     for step in range(nops):
         opk = rng.choice(["cano", "compress_lossless", "compress_trunc", "compress_trunc", "add_compress", "scale", "apply_q", "apply_q",
-                          "gs", "evolve", "evolve", "evolve"])
+                          "gs", "evolve", "evolve", "evolve", "partial_cano", "partial_cano"])
         what = opk
         keep("x", cur, curq)
+        if opk == "partial_cano":
+            if not partial_canonicalise(cur, curq):
+                return
+            continue
         try:
             if opk == "cano":
                 side = rng.choice(["L", "R"])
